@@ -278,6 +278,8 @@ type AttesterSlashingPlan struct {
 	TargetEpoch common.Epoch
 	// Only2: validators that signed only attestation 2 (to test partial intersections).
 	Only2 []common.ValidatorIndex
+	// Only1: validators that signed only attestation 1.
+	Only1 []common.ValidatorIndex
 
 	// Overrides for invalid variants.
 	KeepOrder bool // do not sort/deduplicate Indices
@@ -291,7 +293,7 @@ type AttesterSlashingPlan struct {
 // synthetic (placeholder roots): slashability does not depend on the chain.
 func (s *StateCtx) MakeAttesterSlashing(p AttesterSlashingPlan) (as *phase0.AttesterSlashing, err error) {
 	defer recoverTo(&err)
-	ind1 := append([]common.ValidatorIndex(nil), p.Indices...)
+	ind1 := append(append([]common.ValidatorIndex(nil), p.Indices...), p.Only1...)
 	ind2 := append(append([]common.ValidatorIndex(nil), p.Indices...), p.Only2...)
 	if !p.KeepOrder {
 		ind1 = sortedUnique(ind1)
